@@ -308,8 +308,19 @@ class JsJudge(Judge):
                 try:
                     d = self.gen(specs, 'tsd_types', args, lambda o: open(os.path.join(o, 'tmpl.d.ts'), 'w').write('// h\n/*TYPES*/\n'))
                     dirs.append(d)
-                    texts = [open(os.path.join(d, f)).read() for f in sorted(os.listdir(d)) if f != 'tmpl.d.ts' and f.endswith('.ts')]
+                    files = [f for f in sorted(os.listdir(d)) if f != 'tmpl.d.ts' and f.endswith('.ts')]
+                    texts = [open(os.path.join(d, f)).read() for f in files]
                     self.check_dts('\n'.join(texts), surfaces, cx, bad, args)
+                    if not single:
+                        # one file per namespace: a qualified name needs an import of that namespace in the SAME file
+                        for f, text in zip(files, texts):
+                            own = set(re.findall(r"declare module '(\w+)'", text))
+                            imported = set(re.findall(r"import \* as (\w+) from", text))
+                            body = re.sub(r'/\*.*?\*/|//[^\n]*', '', text, flags=re.S)
+                            for rns in set(re.findall(r'[:<|(,\s=](\w+)\.[A-Z]\w*', body)):
+                                if rns in surfaces and rns not in own and rns not in imported:
+                                    bad('tsd_types %s: %s names types of namespace %s without importing it' % (args[1:], f, rns),
+                                        'tsd_missing_import')
                 except Exception as e:
                     bad('tsd_types %s failed: %s: %s' % (args[1:], type(e).__name__, str(e)[:200]), 'tsd_types_fails')
             # ---------------------------------------------------------- tsd_client
